@@ -21,6 +21,11 @@ PANIC_CALLS = re.compile(
     r"core::panicking::\w+$|core::slice::index::\w+fail\w*$|core::str::\w+::.*(unwrap)$|"
     r"alloc::vec::Vec::<T, A>::(remove|swap_remove|insert|split_off|drain|truncate_unchecked)$|"
     r"alloc::string::String::(from_utf8_unchecked)$")
+SPLIT_AT = re.compile(r"core::slice::<impl \[T\]>::split_at(_mut)?$")
+CHUNKS_EXACT = re.compile(r"core::slice::<impl \[T\]>::chunks_exact(_mut)?$")
+# iterator adaptors through which a ChunksExact item keeps its width (type-level whitelist)
+ITER_ADAPTORS = {"Zip", "Enumerate", "Rev", "Iter", "IterMut", "ChunksExact", "ChunksExactMut", "Take", "Skip", "StepBy",
+                 "Peekable", "Fuse"}
 INDEX_CALL = re.compile(r"core::ops::index::Index(Mut)?::index(_mut)?$")
 ALLOC_CALLS = re.compile(
     r"alloc::vec::Vec::<T>::with_capacity$|alloc::vec::Vec::<T, A>::(with_capacity_in|reserve|reserve_exact|resize|"
@@ -404,6 +409,21 @@ class Decode:
                     if L.get("mutref") or "&mut" in L["ty"]:
                         base, path = self.root_place(F, pl)
                         facts = {f for f in facts if not (self._mentions_root(f[0], base) or self._mentions_root(f[1], base))}
+                if dl is not None and dl not in multi and len(t["args"]) == 2 and op_place(t["args"][0]) is not None \
+                        and any(SPLIT_AT.search(n) for n in nm):
+                    # (head, tail) = s.split_at(mid): len(head) == mid; len(tail) == len(s) - mid >= lb(len s) - ub(mid)
+                    mid = self.expr(F, t["args"][1])
+                    src = ("len", self.root_place(F, op_place(t["args"][0])))
+                    head = ("len", (("l", dl), ("0",)))
+                    tail = ("len", (("l", dl), ("1",)))
+                    facts |= {(head, mid), (mid, head), (head, src), (tail, src)}
+                    um = self.ub(facts, mid)
+                    lo = self.lb(facts, src)
+                    if um is not None and lo >= um:
+                        facts.add((c(lo - um), tail))
+                    us = self.ub(facts, src)
+                    if us is not None and us < MAXI:
+                        facts.add((tail, c(us - self.lb(facts, mid))))
                 if any("Try>::branch" in n for n in nm) and t["args"]:
                     al = op_local(t["args"][0])
                     if al in pend and dl is not None:
@@ -676,6 +696,12 @@ class Decode:
             e = self.expr(F, t["args"][1])
             ok = self.lb(facts, e) >= 1
             return self._site(F, b, t, "chunks", ok, "chunk size >= 1" if ok else "chunk size may be zero", [e])
+        if fn in ("split_at", "split_at_mut") and len(t["args"]) == 2 and op_place(t["args"][0]) is not None:
+            mid = self.expr(F, t["args"][1])
+            ln = ("len", self.root_place(F, op_place(t["args"][0])))
+            ok = self.entails(facts, mid, ln)
+            return self._site(F, b, t, "split_at", ok, "mid <= len entailed" if ok else "mid not bounded by the slice length",
+                              [mid, ln])
         if fn == "copy_from_slice" and len(t["args"]) == 2:
             a = self._slice_width(F, t["args"][0])
             bb = self._slice_width(F, t["args"][1])
@@ -693,6 +719,12 @@ class Decode:
         d = self.single_def(F, l)
         if d and d[0] == "assign" and d[3]["k"] in ("ref", "use", "cast", "rawptr"):
             inner = {"c": d[3]["place"]} if "place" in d[3] else d[3]["ops"][0]
+            ip = op_place(inner)
+            if ip is not None and ip["p"] and isinstance(ip["p"][0], list) and ip["p"][0][:2] == ["d", "Some"] \
+                    and re.fullmatch(r"&(mut )?\[u8\]", ty):
+                w = self._chunk_item_width(F, ip["l"])
+                if w is not None:
+                    return w
             if op_place(inner) is not None:
                 il = op_place(inner)["l"]
                 if il != l:
@@ -709,6 +741,40 @@ class Decode:
                 return ("sub", hi, lo)
         if m:
             return c(m.group(1))
+        return None
+
+    def _chunk_item_width(self, F, opt_local):
+        """width of the `&[u8]` component of an item produced by `Iterator::next` on an iterator built (in this body,
+        through whitelisted adaptors only) from `chunks_exact(_mut)(.., const)`: every such call in the body must use
+        the same constant, no ChunksExact may come from a parameter or a non-core call, and the iterator's type must
+        contain no other slice-yielding component."""
+        d = self.single_def(F, opt_local)
+        if not d or d[0] != "call" or not any(n.endswith("Iterator::next") for n in names(d[2])) or not d[2]["args"]:
+            return None
+        il = op_local(d[2]["args"][0])
+        if il is None:
+            return None
+        ity = F.locals[il]["ty"]
+        if "ChunksExact" not in ity or "[" in ity:
+            return None
+        if any(seg not in ITER_ADAPTORS for seg in re.findall(r"([A-Za-z_]\w*)<", ity)):
+            return None
+        if any("ChunksExact" in F.locals[i]["ty"] for i in range(1, F.arg_count + 1)):
+            return None
+        widths = set()
+        for blk in F.blocks:
+            t = blk["term"]
+            if t["k"] != "call":
+                continue
+            nm = names(t)
+            if any(CHUNKS_EXACT.search(n) for n in nm):
+                e = self.expr(F, t["args"][1]) if len(t["args"]) > 1 else ("?",)
+                widths.add(e if e[0] == "c" else None)
+            elif not t["dest"]["p"] and "ChunksExact" in F.locals[t["dest"]["l"]]["ty"] \
+                    and t["callee"].get("krate") not in ("core", "alloc", "std"):
+                return None
+        if len(widths) == 1 and None not in widths:
+            return widths.pop()
         return None
 
     def _alloc_site(self, F, b, t, facts):
